@@ -548,6 +548,11 @@ func (u *Unmarshaler) processAnonymousStructFieldOptional(fieldType reflect.Type
 			return err
 		}
 
+		// parseOptionsWithContext leaves the key of a field without options as it is
+		if u.opts.canonicalKey != nil {
+			fieldKey = u.opts.canonicalKey(fieldKey)
+		}
+
 		_, hasValue := getValue(m, fieldKey, u.opts.opaqueKeys)
 		if hasValue {
 			if !filled {
